@@ -365,7 +365,11 @@ class Sim:
             if changed[L - 1]:
                 if lv.uncommitted:
                     hz["over"][L] = (lv.M - lv.Mc, lv.Mc - lv.M)
-            elif any(changed[:L - 1]) and not np.all(self.ds[L].filter.manual):
+            elif (any(changed[:L - 1]) and not np.all(self.ds[L].filter.manual)
+                  and lv.uncommitted):
+                # Since repair 9189952 (the hash of a hierarchy parent is part of
+                # `parent_changed`) committed exclusions survive this history; only
+                # manual edits typed since the level's last refresh are still at risk.
                 hz["stale"].append(L)
         return hz
 
